@@ -110,6 +110,9 @@ type seenReq struct {
 type origin struct {
 	seen   []seenReq
 	answer func(i int, req *http.Request) (*http.Response, error)
+	// wraps: the round tripper is a wrapper (tracing, retries) that works on a copy of the
+	// request, so the response it returns refers to that copy
+	wraps bool
 }
 
 func (o *origin) RoundTrip(req *http.Request) (*http.Response, error) {
@@ -122,7 +125,12 @@ func (o *origin) RoundTrip(req *http.Request) (*http.Response, error) {
 		h[k] = append([]string(nil), v...)
 	}
 	o.seen = append(o.seen, seenReq{req.Method, req.URL.String(), req.Host, h, body, req.URL.Scheme, req.TLS != nil})
-	return o.answer(len(o.seen)-1, req)
+	res, err := o.answer(len(o.seen)-1, req)
+	if o.wraps && res != nil {
+		r2 := *req
+		res.Request = &r2
+	}
+	return res, err
 }
 
 // rawResponse parses wire bytes into a response the way http.Transport does.
